@@ -149,7 +149,7 @@ pub fn harvest<C: Suite>(co: &mut Corpus<C>, n: u16, t: u16, kind: &str, rng: &m
     }
     co.signing_package.push(sess.pkg.clone());
     co.signing_package.push(SigningPackage::new(sess.comms.clone(), &[]));
-    let sig = frost_core::aggregate(&sess.pkg, &sess.shares, &grp.pkp).map_err(|e| format!("{e:?}"))?;
+    let sig = C::api_aggregate(&sess.pkg, &sess.shares, &grp.pkp).map_err(|e| format!("{e:?}"))?;
     co.signature.push(sig);
     co.signature.push(key.sign(&mut *rng, &msg));
     // re-randomisation
@@ -174,7 +174,7 @@ pub fn harvest<C: Suite>(co: &mut Corpus<C>, n: u16, t: u16, kind: &str, rng: &m
         let mut s1 = BTreeMap::new();
         let mut q1 = BTreeMap::new();
         for id in &grp.ids {
-            let (s, pk) = refresh::refresh_dkg_part1::<C, _>(*id, n, t, &mut *rng).map_err(|e| format!("{e:?}"))?;
+            let (s, pk) = C::api_refresh_dkg_part1(*id, n, t, &mut *rng).map_err(|e| format!("{e:?}"))?;
             co.dkg_r1_secret.push(s.clone());
             co.dkg_r1_package.push(pk.clone());
             s1.insert(*id, s);
@@ -183,12 +183,12 @@ pub fn harvest<C: Suite>(co: &mut Corpus<C>, n: u16, t: u16, kind: &str, rng: &m
         let me = grp.ids[0];
         let mut ib = q1.clone();
         ib.remove(&me);
-        let (s2, out) = refresh::refresh_dkg_part2::<C>(s1[&me].clone(), &ib).map_err(|e| format!("{e:?}"))?;
+        let (s2, out) = C::api_refresh_dkg_part2(s1[&me].clone(), &ib).map_err(|e| format!("{e:?}"))?;
         co.dkg_r2_secret.push(s2);
         co.dkg_r2_package.extend(out.values().cloned());
     }
     // dealer refresh: refreshing shares carry a stripped commitment
-    if let Ok((rs, np)) = refresh::compute_refreshing_shares::<C, _>(grp.pkp.clone(), &grp.ids, rng) {
+    if let Ok((rs, np)) = C::api_compute_refreshing_shares(grp.pkp.clone(), &grp.ids, rng) {
         co.vss_commitment.push(rs[0].commitment().clone());
         co.secret_share.extend(rs);
         co.public_key_package.push(np);
@@ -196,9 +196,9 @@ pub fn harvest<C: Suite>(co: &mut Corpus<C>, n: u16, t: u16, kind: &str, rng: &m
     // repair
     if n > t {
         let helpers: Vec<_> = grp.ids[1..].to_vec();
-        if let Ok(deltas) = repairable::repair_share_part1::<C, _>(&helpers, &grp.kps[&helpers[0]], rng, grp.ids[0]) {
+        if let Ok(deltas) = C::api_repair_part1(&helpers, &grp.kps[&helpers[0]], rng, grp.ids[0]) {
             let ds: Vec<Delta<C>> = deltas.values().copied().collect();
-            co.sigma.push(repairable::repair_share_part2::<C>(&ds));
+            co.sigma.push(C::api_repair_part2(&ds));
             co.delta.extend(ds);
         }
     }
